@@ -111,6 +111,21 @@ def c12_battery(binary):
     def three(root):
         for n, data in (("a.bin", b"aaXX11" + b"Q" * 3000), ("b.bin", b"aaYY22" + b"Q" * 3000), ("c.bin", b"aaXX11" + b"Q" * 3000)):
             open(os.path.join(root, n), "wb").write(data)
+    # in-place rewrite that changes the length but keeps inode and mtime (cp --preserve=timestamps over an existing file): every
+    # cached chunk of the old content - also the 4 KiB prefix chunk, which both lengths cover completely - is stale
+    def four(root):
+        for n, data in (("a.bin", b"A" * 20000), ("a2.bin", b"A" * 20000), ("b.bin", b"B" * 24000), ("c.bin", b"B" * 24000)):
+            p = os.path.join(root, n)
+            open(p, "wb").write(data)
+            os.utime(p, ns=ns(T0, 100))
+
+    def overwrite_keep_mtime(root):
+        p = os.path.join(root, "a.bin")
+        with open(p, "r+b") as f:
+            f.truncate(0)
+            f.write(b"B" * 24000)
+        os.utime(p, ns=ns(T0, 100))
+    hist("in-place rewrite with another length, inode and mtime kept (files larger than the prefix size)", [four, overwrite_keep_mtime])
     # modification times before 1970 (restored archives, broken clocks): a rewrite that moves the mtime from 1960 to 1965 changes it
     hist("same-length rewrite, mtime moves from 1960 to 1965 (both before the epoch)",
          [lambda r: two(r, t=ns(-315619200, 0)), lambda r: edit(r, "b.bin", 2500, b"B", ns(-144000000, 0))])
@@ -842,6 +857,36 @@ def c04_battery(binary):
                     if len(devs) > 4:
                         _memo[("c04", binary)] = devs
                         return devs
+    # --isolate: the files under one root form one sub-group although they are different files; a rewrite of the *second* file of
+    # a root that is dropped as a whole must still stop the group
+    for op in (["remove"], ["link"]):
+        for victim in ("extra/x2.bin", "extra/x1.bin", "keep/k1.bin"):
+            d, root = fresh("c04b.")
+            env = dict(mkenv(d), TZ="UTC")
+            try:
+                for rel in ("keep/k1.bin", "extra/x1.bin", "extra/x2.bin"):
+                    p = os.path.join(root, rel)
+                    os.makedirs(os.path.dirname(p), exist_ok=True)
+                    open(p, "wb").write(b"I" * 400)
+                    old = time.time() - 1000
+                    os.utime(p, (old, old))
+                rep = os.path.join(d, "rep.txt")
+                with open(rep, "wb") as f:
+                    subprocess.run([binary, "group", "--isolate", os.path.join(root, "keep"), os.path.join(root, "extra")], stdout=f, stderr=subprocess.PIPE, env=env, timeout=60)
+                with open(os.path.join(root, victim), "r+b") as f:
+                    f.seek(7)
+                    f.write(b"Z")
+                before = inventory(root)
+                with open(rep, "rb") as f:
+                    subprocess.run([binary] + op, stdin=f, stdout=subprocess.PIPE, stderr=subprocess.PIPE, env=env, timeout=60)
+                after = inventory(root)
+                kept = {v for v in after.values() if v is not None}
+                for p, content in before.items():
+                    if content is not None and after.get(p, "gone") != content and content not in kept:
+                        devs.append({"tz": "UTC", "cmd": " ".join(op), "group_options": ["--isolate", "keep", "extra"], "edit": "same-length rewrite of %s right after `group`" % victim,
+                                     "lost": "the content %r.. of %s is stored nowhere after the dedupe command" % (content[:12], os.path.relpath(p, root))})
+            finally:
+                shutil.rmtree(d, ignore_errors=True)
     _memo[("c04", binary)] = devs
     return devs
 
